@@ -11,6 +11,21 @@ use check::{run_families, Family};
 fn families(prop: &str, tier: &str) -> Option<Vec<Family>> {
     Some(match prop {
         "C01" => props::c01(tier),
+        "C02" => props::c02(tier),
+        "C03" => props::c03(tier),
+        "C04" => props::c04(tier),
+        "C05" => props::c05(tier),
+        "C06" => props::c06(tier),
+        "C07" => props::c07(tier),
+        "C08" => props::c08(tier),
+        "C09" => props::c09(tier),
+        "C10" => props::c10(tier),
+        "C11" => props::c11(tier),
+        "C14" => props::c14(tier),
+        "C16" => props::c16(tier),
+        "C17" => props::c17(tier),
+        "C18" => props::c18(tier),
+        "C19" => props::c19(tier),
         _ => return None,
     })
 }
